@@ -102,6 +102,8 @@ type Explorer struct {
 	// Deadline / MaxExecs cap the run (a capped run is reported as not exhaustive, never as a violation).
 	Deadline time.Time
 	MaxExecs int64
+	// LeakIsViolation reports goroutines left blocked forever at the end of an execution (Options.Drain).
+	LeakIsViolation bool
 	// ValidateEvery re-runs every n-th execution and compares the traces (0 = 64).
 	ValidateEvery int64
 	Stats         *Stats
@@ -161,6 +163,10 @@ func (e *Explorer) Explore(t *testing.T) {
 		}
 		isRoot := len(w.Prefix) == 0
 		countIt := true
+		if e.LeakIsViolation && r.Leak && r.Viol == nil && !strings.HasPrefix(r.Verdict, "engine-panic") {
+			r.Viol = &Violation{Signature: "goroutine-left-blocked-forever", Detail: "after the call returned and everything ran to quiescence, goroutines of the execution are still blocked"}
+			r.Verdict = "violation"
+		}
 		if r.Verdict == "diverged" || strings.HasPrefix(r.Verdict, "engine-panic") {
 			st.Diverged = append(st.Diverged, fmt.Sprintf("%s schedule=%v: %s %s", e.Scenario, w.Prefix, r.Verdict, r.Diverged))
 			continue
